@@ -816,3 +816,31 @@ var verifAdoptWorkers atomic.Bool
 
 // VerifSchedAdoptWorkers makes write workers started from now on schedulable threads (1000+shard).
 func VerifSchedAdoptWorkers(on bool) { verifAdoptWorkers.Store(on) }
+
+// VerifLockState probes shard i's locks with TryLock (meaningful only while every other thread is parked):
+// drainFree / muFree report whether the drain token and the shard lock are free; wakeTok / closed the channels.
+func (c *Cache[K, V]) VerifLockState(i int) (drainFree, muFree, wakeTok, spaceTok, closed bool) {
+	s := c.shards[i]
+	if s.drainMu.TryLock() {
+		drainFree = true
+		s.drainMu.Unlock()
+	}
+	if s.mu.TryLock() {
+		muFree = true
+		s.mu.Unlock()
+	}
+	wakeTok = len(s.wake) > 0
+	spaceTok = len(s.queue.space) > 0
+	select {
+	case <-c.closeCh:
+		closed = true
+	default:
+	}
+	return
+}
+
+// VerifRingState exposes shard i's ring counters.
+func (c *Cache[K, V]) VerifRingState(i int) (head, tail uint64, wakeState uint32, ring int) {
+	q := c.shards[i].queue
+	return q.head.Load(), q.tail.Load(), q.wakeState.Load(), len(q.buffer)
+}
